@@ -300,6 +300,7 @@ SPECIALS = [
     'a = b = c, d = 1, 2\na.b = c[0] = 3\nx += 1\nprint(f"{a!r:>{b}}")\n',
     'return 3\nglobal q\nq = 1\nnonlocal_ = 1\n',
     '',
+    'v = 1\ndef f(a=v, /, b=v, *c, d=v, e: v = v, **g: v) -> v:\n    pass\nh = lambda a=v, *, b=v: a\n',
     'def f():\n    """doc"""\n',
     'from starmod import *\nprint(a, c, D, e)\ndef f():\n    global a\n    from starmod import *\n    from nowhere import *\n',
     'class A(f([x for x in y])):\n    pass\nwhile [t for t in u]:\n    pass\n@dec([p for p in q])\ndef g(a=[r for r in s]): pass\n',
